@@ -142,6 +142,20 @@ CHECKS = {
         note="The textual table (labels as printed, the four dropped guard temperatures, precision) is produced by qha/pandas and is "
              "outside the solver claim; the concrete replay re-reads real files only to confirm a counterexample.",
         design="3/C15"),
+    "C05": dict(
+        engine="symnum+z3",
+        technique="symbolic execution of the real orchestration (calculator.py, full_modulus.py, tasks.py and the phonon classes) on symbolic "
+                  "data objects with the numeric kernels as uninterpreted functions; z3 equality of each modulus with the stated "
+                  "composition; variable-support checks; one real end-to-end run as stage R",
+        text="Partial (wiring): for all values of the symbolic file contents and every implementation of the kernels, each isothermal and "
+             "adiabatic modulus equals LSQ3(eps(V0,V), V*c*(GPa->au))(eps(V0,v))/v plus the C01-C04 phonon pipeline evaluated on "
+             "(interpolated spectrum, [dgamma, gamma, gamma^2], weights, atom count, strain fractions); strain fractions are the normalised "
+             "centred log-derivatives of the fitted axes (thirds without lattice block); static P = -grad LSQ(E)/grad v; static part "
+             "T-independent, phonon part independent of the static table.",
+        note="Outside: text parsing of the three files, that qha/LAPACK/scipy kernels compute what their names say, grid settings; the "
+             "crystal-system fill is C08/C09. In the lattice case the strain fractions handed downstream are abstracted by fresh symbols "
+             "after their value has been checked (recorded cut).",
+        design="3/C05"),
 }
 
 NOT_APPLICABLE = {
